@@ -48,21 +48,39 @@ type FE struct {
 	Lo, Hi *big.Int
 }
 
+// UFE is a small integer that is the same in every RNS limb (a power-of-two digit): it becomes a field element
+// when it meets a modulus.  special[q] overrides the plain atom for one modulus (recombination fact).
+type UFE struct {
+	Name    string
+	Class   int
+	Hi      uint64
+	Special map[uint64]*FE
+}
+
+func (x *Exec) instUFE(u *UFE, q uint64) *FE {
+	if f, ok := u.Special[q]; ok {
+		return f
+	}
+	f := x.newAtom(u.Name, u.Class, q)
+	return &FE{P: f.P, Lo: bigZero, Hi: new(big.Int).SetUint64(u.Hi)}
+}
+
 type feState struct {
-	atoms    []*atomInfo
-	byName   map[string]*atomInfo
-	rinv     map[uint64]uint64 // 2^-64 mod q
-	rr       map[uint64]uint64 // 2^64 mod q
-	nttMat   map[string][][]uint64
-	streams  map[string]int
-	monoVars map[string]*Term
+	atoms     []*atomInfo
+	byName    map[string]*atomInfo
+	rinv      map[uint64]uint64 // 2^-64 mod q
+	rr        map[uint64]uint64 // 2^64 mod q
+	nttMat    map[string][][]uint64
+	streams   map[string]int
+	monoVars  map[string]*Term
+	decompIDs map[string]int
 }
 
 type streamState struct{ pos int }
 
 func (x *Exec) feS() *feState {
 	if x.fe == nil {
-		x.fe = &feState{byName: map[string]*atomInfo{}, rinv: map[uint64]uint64{}, rr: map[uint64]uint64{}, nttMat: map[string][][]uint64{}, streams: map[string]int{}, monoVars: map[string]*Term{}}
+		x.fe = &feState{byName: map[string]*atomInfo{}, rinv: map[uint64]uint64{}, rr: map[uint64]uint64{}, nttMat: map[string][][]uint64{}, streams: map[string]int{}, monoVars: map[string]*Term{}, decompIDs: map[string]int{}}
 	}
 	return x.fe
 }
@@ -357,6 +375,8 @@ func (x *Exec) feEqual(a, b Value) *Term {
 // feArg converts a kernel argument into a field element of modulus q.
 func (x *Exec) feArg(v Value, q uint64) *FE {
 	switch t := v.(type) {
+	case *UFE:
+		return x.instUFE(t, q)
 	case *FE:
 		if t.P.q != q {
 			panic(&GoPanic{Msg: fmt.Sprintf("VERIF-MODULUS: value of modulus %d passed to a reduction modulo %d (limb mix-up)", t.P.q, q), Stack: x.stackTrace()})
@@ -372,7 +392,8 @@ func (x *Exec) feArg(v Value, q uint64) *FE {
 
 func anyFE(args []Value) bool {
 	for _, a := range args {
-		if _, ok := a.(*FE); ok {
+		switch a.(type) {
+		case *FE, *UFE:
 			return true
 		}
 	}
@@ -473,6 +494,8 @@ func (x *Exec) feKernel(name string, args []Value) (Value, bool) {
 
 func (x *Exec) feOf(v Value, q uint64) *FE {
 	switch t := v.(type) {
+	case *UFE:
+		return x.instUFE(t, q)
 	case *FE:
 		return t
 	case *Term:
